@@ -156,3 +156,46 @@ pub fn interesting_len(r: &mut Rng, max: usize) -> usize {
     };
     n.min(max)
 }
+
+/// One block in which matches of every distance class 2^4..2^16 occur equally often (about 29 times each) plus one
+/// class that occurs once: the offset code histogram is flat and sums to more than 2^8, so the compressor needs the
+/// largest offset table it may use. Every match copies bytes that were literals (never bytes of an earlier copy),
+/// so that the built-in match finder finds exactly the planned distance.
+pub fn flat_offset_classes(r: &mut Rng) -> Vec<u8> {
+    let mut d = gen(r, Shape::Random, 70_000);
+    let per = r.usize(28, 30);
+    let mut plan: Vec<u32> = Vec::new();
+    let rare = r.range(4, 15) as u32;
+    for c in 4..=15u32 {
+        plan.extend(std::iter::repeat_n(c, if c == rare { 1 } else { per }));
+    }
+    for i in (1..plan.len()).rev() {
+        let j = r.usize(0, i);
+        plan.swap(i, j);
+    }
+    let mut copied: Vec<(usize, usize)> = Vec::new();
+    for c in plan {
+        let nl = r.usize(34, 40);
+        let fresh = r.bytes(nl);
+        d.extend_from_slice(&fresh);
+        let len = r.usize(6, 9);
+        for _try in 0..60 {
+            let dist = r.usize(1usize << c, (1usize << (c + 1)) - 4);
+            if dist > d.len() {
+                continue;
+            }
+            let start = d.len() - dist;
+            if start + len > d.len() || copied.iter().any(|(a, b)| start < *b + 5 && start + len + 5 > *a) {
+                continue;
+            }
+            copied.push((d.len(), d.len() + len));
+            for i in 0..len {
+                let b = d[start + i];
+                d.push(b);
+            }
+            break;
+        }
+    }
+    d.truncate(BLOCK);
+    d
+}
